@@ -61,7 +61,14 @@ func (n *naiveTSO) Commit(revision uint64) {
 	//	panic("committed revision must increase continuously")
 	//}
 
-	atomic.StoreUint64(&n.committedRevision, revision)
+	// the committed revision never moves backwards: the answer of a former leader that a follower read
+	// applies late (after a newer answer, or after this node has taken over) must not hide committed writes
+	for {
+		committed := atomic.LoadUint64(&n.committedRevision)
+		if revision <= committed || atomic.CompareAndSwapUint64(&n.committedRevision, committed, revision) {
+			break
+		}
+	}
 	// in case leader transfer, need to update tso and pre tso
 	preTSO := atomic.LoadUint64(&n.dealRevision)
 	if preTSO < revision {
